@@ -1,10 +1,11 @@
 // @unit c15_settings property=C15 attach=verif-c15/src/lib.rs
-// @h c15_settings_crate_plain tier=off
+// @h c15_settings_crate_plain tier=native
 // @h c15_settings_with_crate_args_plain tier=both bounded=enumerated-literal-arguments
 // @h c15_settings_with_crate_args_renamed tier=both bounded=enumerated-literal-arguments bounded=enumerated-literal-arguments
-// @h c15_settings_crate_renamed tier=off bounded=enumerated-literal-arguments
+// @h c15_settings_crate_renamed tier=native bounded=enumerated-literal-arguments
 // @h c15_settings_flags tier=both bounded=enumerated-literal-arguments
 // @canary canary_c15_settings
+// @native-canary canary_c15_settings
 //
 // C15 -- "every option of each front-end ... reaches the generator with the meaning
 // documented for it": the CLI's mapping of parsed arguments onto TypeSpaceSettings, on the
@@ -17,9 +18,10 @@
 //   P6  struct builder == !--no-builder; every --additional-derive reaches the settings in
 //       order; --unknown-crates generate|allow|deny => that policy; absent => Generate
 //
-// NOT DECIDED: P5. Its two harnesses are kept with `tier=off`: reading a `CrateSpec` back out
-// of the B-tree (`crates.get(..)` then a match on the entry's fields) does not terminate in
-// CBMC within 20 minutes (the same was seen for C13's configured-crate cells).
+// P5 through with_crate's own effect (reading the `CrateSpec` back out of settings.crates) is not
+// proved: `crates.get(..)` then a match on the entry's fields does not terminate in CBMC within
+// 20 minutes (the same was seen for C13's configured-crate cells). Its two literal harnesses are
+// executed natively against the real code instead (`tier=native`, bounded stand-in).
 //
 // The settings are read through kani/c15_access.rs (pub accessors attached to typify-impl in
 // the scratch copy). All argument strings are literals (enumerated), flags are symbolic.
